@@ -241,7 +241,11 @@ Ltac type_ops :=
   cbv beta iota zeta delta [as_pointer as_slice as_named type_elem named_obj obj_pkg obj_name pkg_path pkg_path_of
                             strip_ptr pkg_eqb fst snd is_nil].
 
-Ltac unchanged := eexists; (split; [reflexivity|]); (split; [reflexivity|frame_ok]).
+Ltac unchanged :=
+  lazymatch goal with
+  | |- exists w', (Returned tt, ?W) = (Returned tt, w') /\ _ =>
+      exists W; (split; [reflexivity|]); (split; [reflexivity|frame_ok])
+  end.
 
 Theorem makeSubMap_is_model : forall i j typ1 typ2 sl (w : world),
   exists w', makeSubMap (LSrc i) (LDst j) typ1 typ2 sl w = (Returned tt, w')
